@@ -175,6 +175,9 @@ func (m *Model) IsHidden(name string) bool {
 	return m.Hidden && strings.HasPrefix(name, "._")
 }
 
+// Find returns the entry of d that name resolves to, or nil.
+func (m *Model) Find(d *Node, name string) *Entry { return m.find(d, name) }
+
 func (m *Model) find(d *Node, name string) *Entry {
 	norm := m.Norm(name)
 	for _, e := range d.Entries {
